@@ -73,6 +73,12 @@ class T:
         def __init__(self, v):
             self.v = v
 
+    class Known(_Base):
+        """loop-carried local with a KNOWN value at every loop head (checked where the invariant is established); in
+        contrast a local declared Const(None) in a loop contract is 'irrelevant at the loop head' and must not be read"""
+        def __init__(self, v):
+            self.v = v
+
 
 def mk(ip, t, name):
     """fresh symbolic value of type t (with its well-formedness assumptions)"""
@@ -97,7 +103,7 @@ def mk(ip, t, name):
         return SStr(fresh(name, Str))
     if isinstance(t, T.NoneT):
         return None
-    if isinstance(t, T.Const):
+    if isinstance(t, (T.Const, T.Known)):
         return t.v
     if isinstance(t, T.Bytes):
         nm = sval.FRESH.name(name)
